@@ -123,6 +123,12 @@ def deductive(rep, tier, jobs):
                     "D3 wthh ids: x,y in {0,1}": [a * 100 + x == b * 100 + y, 0 <= x, x <= 1, 0 <= y, y <= 1, z3.Or(a != b, x != y)]}.items():
         r = solve.check(q, 10)
         rep.ob(name, {"unsat": "discharged", "sat": "refuted"}.get(r.status, "unknown"), r.backend, r.seconds, "src/_gettsim/groupings.py", "lemma")
+    # the facts the two lemmas start from (offsets below 100 / in {0,1}, counted per family / household)
+    # are postconditions of the kernels: discharged here as well, with the bounded replay as witness
+    from props import C12 as c12
+
+    c12.recheck_kernel(rep, "bg_id_numpy", "KD", "derived ids of different families can collide or depend on other rows: the needs-unit contract (offset counted per family, below 100) does not hold")
+    c12.recheck_kernel(rep, "wthh_id_numpy", "KD", "derived ids of different households can collide: the part-household contract does not hold")
     return lost
 
 
